@@ -52,8 +52,8 @@ def check_stft(case):
     bank = call("bank constructor", build_bank, spec["bank"])
     comp = call("STFT constructor", build_stft, spec, bank)
     L, S = comp.frame_length, comp.frame_shift
-    if S < 1 or S > L:
-        raise Discard()
+    if S < 1 or (S > L and spec["kaldi_shift"]):
+        raise Discard()  # (with kaldi_shift and a shift above the length compute_full itself rejects most signals)
     D0 = stft_ref.documented_dft_size(L, spec["pad"])
     if any(len(bank.get_truncated_response(i, D0)[1]) == 0 for i in range(bank.num_filts)):
         # a filter without a single DFT bin: the torch module documents a ValueError for empty filters
@@ -101,7 +101,8 @@ def check_stft(case):
         D = stft_ref.documented_dft_size(L, spec["pad"])
         # every frame is judged at its own level (each frame is transformed on its own in both implementations)
         nat = stft_ref.natural_rows(x.astype(np.float64), win, L, S, D, style, kal, spec["use_power"])
-        msg = stft_ref.compare_features_per_frame(got, ref, spec["use_log"], nat, energy_col=spec["include_energy"], rtol=rtol, afrac=afrac)
+        msg = stft_ref.compare_features_per_frame(got, ref, spec["use_log"], nat, energy_col=spec["include_energy"], rtol=rtol, afrac=afrac,
+                                                    floor=1e-300 if prec == "double" else 1e-35)
         require(msg is None, "N={} L={} S={} D={} style={} kaldi={} {}: torch vs numpy: {}", N, L, S, D, style, spec["kaldi_shift"], prec, msg)
     labels = ["prec=" + prec, "style=" + style, "bank=" + spec["bank"]["alias"], "D%4=" + str(stft_ref.documented_dft_size(L, spec["pad"]) % 4)]
     if ref.shape[0] == 0:
@@ -255,6 +256,10 @@ def check_dither(case):
 @st.composite
 def _stft_cases(draw):
     comp = draw(stft_specs(max_len=48))
+    if draw(st.integers(0, 7)) == 0:
+        # sub-sampled analysis: a frame shift above the frame length ("every STFT computer configuration")
+        comp["S"] = comp["L"] + draw(st.one_of(st.integers(1, 4), st.integers(1, 2 * comp["L"] + 1)))
+        comp["kaldi_shift"] = False
     L = comp["L"]
     n = draw(st.one_of(st.integers(L, 5 * L + 3), st.integers(0, L // 2), st.sampled_from([L, L + 1, 2 * L, 0, L // 2])))
     if draw(st.integers(0, 11)) == 0:
